@@ -61,6 +61,14 @@ Kahn(ev, done, todo, R) ==
        IN Kahn(ev, Append(done, m), todo \ {m}, R)
 
 PowerSet(ev, F) == LET P == {i \in F : IsPowerEvent(ev, i)} IN P \cup (UNION {Chain(ev, p) : p \in P} \cap F)
+\* The text reads "the events from P's auth chain that are also in the full conflicted set".  The reference implementation
+\* (Synapse) and ruma only follow auth_events edges between members of the full conflicted set, which leaves out a conflicted
+\* event that P reaches only through unconflicted events (it is then sorted with the remaining events).  Both readings are
+\* carried: conn = FALSE is the text, conn = TRUE the connected reading.
+RECURSIVE ConnClosure(_, _, _)
+ConnClosure(ev, X, F) == LET more == (UNION {ev[i].auth : i \in X}) \cap F IN
+                         IF more \subseteq X THEN X ELSE ConnClosure(ev, X \cup more, F)
+PowerSetConn(ev, F) == ConnClosure(ev, {i \in F : IsPowerEvent(ev, i)}, F)
 
 \* state used to authorise e: for each key of the selection the partial state's event, else the one of e's own auth events
 AuthStateFor(ev, e, st, R) ==
@@ -98,11 +106,11 @@ SortMainline(ev, done, todo, ml, na) ==
   ELSE LET m == CHOOSE i \in todo : \A j \in todo \ {i} : MainlineLess(ev, i, j, ml, na)
        IN SortMainline(ev, Append(done, m), todo \ {m}, ml, na)
 
-\* all named intermediate results; na = Inf is the specification
-ResolveDetail(ev, S, R, na) ==
+\* all named intermediate results; na = Inf and conn = FALSE is the specification
+ResolveDetailV(ev, S, R, na, conn) ==
   LET Un == Unconflicted(S)
       F == FullConflicted(ev, S)
-      X == PowerSet(ev, F)
+      X == IF conn THEN PowerSetConn(ev, F) ELSE PowerSet(ev, F)
       order1 == Kahn(ev, <<>>, X, R)
       st1 == IterAuth(ev, order1, Un, R)
       P == IF K("m.room.power_levels", "") \in DOMAIN st1 THEN st1[K("m.room.power_levels", "")] ELSE NoPL
@@ -115,6 +123,7 @@ ResolveDetail(ev, S, R, na) ==
   IN [conflicted |-> ConflictedSet(S) # {}, full |-> F, power |-> order1, rest |-> order2,
       resolved |-> IF ConflictedSet(S) = {} THEN Un ELSE final]
 
+ResolveDetail(ev, S, R, na) == ResolveDetailV(ev, S, R, na, FALSE)
 Resolve(ev, S, R) == ResolveDetail(ev, S, R, Inf).resolved
 \* the variant that gives events without mainline ancestor the position of the oldest mainline event
 ResolveOldest(ev, S, R) == ResolveDetail(ev, S, R, 0).resolved
